@@ -599,12 +599,35 @@ func c13JudgeScript(c *mon.Ctx, in *c13Script) {
 		if err != nil {
 			c.Violationf("C13:json:marshal-error", "json.Marshal(script %s): %v", c13Short(s), err)
 		} else {
-			var out bscript.Script
-			if c.Try("json.Unmarshal(*bscript.Script)", func() { err = json.Unmarshal(js, &out) }) {
-				if err != nil || !bytes.Equal(out, s) {
-					c.Violationf("C13:json:roundtrip-differs", "json round trip of script %s: err=%v got %s", c13Short(s), err, c13Short(out))
-				} else {
-					c.Count("json:roundtrip")
+			// the destination is fresh, or was used before for another script
+			// (a decoding loop re-using its variable), directly or as a field
+			for di, dirty := range [][]byte{nil, {0x76, 0xa9, 0x14}, append(append([]byte{}, s...), 0x51, 0x52)} {
+				out := bscript.Script(append([]byte(nil), dirty...))
+				if c.Try("json.Unmarshal(*bscript.Script)", func() { err = json.Unmarshal(js, &out) }) {
+					if err != nil || !bytes.Equal(out, s) {
+						c.Violationf("C13:json:roundtrip-differs"+[]string{"", ":reused-destination", ":reused-destination"}[di], "json round trip of script %s into a destination holding %x: err=%v got %s", c13Short(s), dirty, err, c13Short(out))
+					} else {
+						c.Count("json:roundtrip")
+					}
+				}
+			}
+			type holder struct {
+				S *bscript.Script `json:"s"`
+			}
+			var hjs []byte
+			if c.Try("json.Marshal(struct with *bscript.Script)", func() { hjs, err = json.Marshal(holder{S: scr}) }) && err == nil {
+				old := bscript.Script{0x76, 0xa9, 0x14}
+				h := holder{S: &old}
+				if c.Try("json.Unmarshal(struct with *bscript.Script)", func() { err = json.Unmarshal(hjs, &h) }) {
+					var got []byte
+					if h.S != nil { // a nil pointer holds no bytes: the empty script
+						got = *h.S
+					}
+					if err != nil || !bytes.Equal(got, s) {
+						c.Violationf("C13:json:roundtrip-differs:field", "json round trip of script %s as a struct field (%s) into a struct holding another script: err=%v", c13Short(s), hexShort(hjs), err)
+					} else {
+						c.Count("json:roundtrip:field")
+					}
 				}
 			}
 		}
